@@ -47,6 +47,47 @@ def oracle(chk, o, m):
                 chk.violation("client-supplied date value reached the host", d, observed=v.decode("latin-1"))
 
 
+def concurrent_after_idle(chk, stack, callers):
+    """eight kept-alive connections send a request at the same moment after a pause of more than a second, several times: every one
+    of those requests carries the time of that moment"""
+    import threading
+    for ep in ("ws", "imds", "hostga"):
+        stack.ctl(f"rules {ep} none")
+    c = callers.caller(0, "curl", True)
+    conns = [stack.connect(audit=(0, c["pid"], 1, e2e.IMDS[0], e2e.IMDS[1])) for _ in range(8)]
+    try:
+        for rnd in range(7 if chk.tier == "quick" else 40):
+            time.sleep(1.15)
+            stack.hosts.take()
+            barrier = threading.Barrier(len(conns))
+            t0 = time.time()
+
+            def go(cn, i):
+                barrier.wait()
+                try:
+                    cn.request(e2e.build_request("GET", "/metadata/instance?rnd=%d&i=%d" % (rnd, i), [(b"Host", b"h")]), b"GET", 5.0)
+                except OSError:
+                    pass
+            ths = [threading.Thread(target=go, args=(cn, i), daemon=True) for i, cn in enumerate(conns)]
+            [t.start() for t in ths]
+            [t.join(timeout=8) for t in ths]
+            t1 = time.time()
+            time.sleep(0.05)
+            recs = [x for x in stack.hosts.take() if not x.get("partial")]
+            chk.case(nontrivial_key=("concurrent-after-idle", rnd, len(recs)))
+            chk.count("concurrent_requests_after_a_pause", len(recs))
+            for rec in recs:
+                dts = [v.decode("latin-1") for n, v in rec["headers"] if n.lower() == b"x-ms-azure-host-date"]
+                if len(dts) != 1 or not pipe.date_ok(dts[0], t0, t1):
+                    chk.violation("host did not see exactly one fresh date header",
+                                  {"situation": "8 kept-alive connections, one request each at the same moment, after a pause of 1.15 s (round %d)" % rnd,
+                                   "request": rec["start"].decode("latin-1"), "sent_at": time.strftime("%H:%M:%S", time.gmtime(t0))},
+                                  expected="the time of the request", observed=dts)
+    finally:
+        for cn in conns:
+            cn.close()
+
+
 def clock_steps(chk, binp):
     """the wall clock of the agent is stepped while it runs (time synchronisation after boot, an administrator, a resume): the date
     header of a request relayed afterwards is the time of that request by the new clock"""
@@ -128,6 +169,17 @@ def run(chk):
                     if rng.chance(1, 2):
                         case["env"][ep] = None
             runner.run_case(case)
+        # a key is latched (or replaced) while a request that carries the client's own authorization header is still uploading its body
+        for k, (before, after) in enumerate([(None, pipegen.KEY), (pipegen.KEY, ("88888888-0000-0000-0000-000000000008", "8d" * 32)), (None, pipegen.KEY)]):
+            c_ = pipegen.gen_case(rng, callers, st, spoof=True, dest_label="imds", with_key=True)
+            for ep in ("ws", "imds", "hostga"):
+                c_["env"][ep] = None
+            c_["env"]["key"] = before
+            c_["env_after_head"] = dict(c_["env"], key=after)
+            c_["req"] = {"method": "POST", "target": "/metadata/instance?mid=%d" % k, "body": bytes(rng.below(256) for _ in range(2500)), "chunked": None,
+                         "headers": list(c_["req"]["headers"]) + [(b"x-ms-azure-host-authorization", b"Azure-HMAC-SHA256 client-guid client-sig")]}
+            chk.count("key_latched_while_the_body_arrived")
+            runner.run_case(c_)
         # chunked requests whose TRAILER section carries copies of the proxy's own headers: they do not become headers at the host
         for k in range(6 if chk.tier == "quick" else 60):
             c_ = pipegen.gen_case(rng, callers, st, spoof=rng.chance(1, 2), dest_label=rng.pick(["imds", "ws"]), with_key=rng.chance(3, 4))
@@ -185,6 +237,7 @@ def run(chk):
             runner.run_case(dict(case, req=dict(case["req"]), label="one-minute-later"))
         runner.finish(oracle)
         chk.sample(runner.describe(runner.observations[0]))
+        concurrent_after_idle(chk, stack, callers)
     finally:
         stack.close()
     clock_steps(chk, binp)
